@@ -165,6 +165,11 @@ fn run_matrix(ctx: &mut Ctx, rng: &mut Rng, index: u64, seg_class: u8) {
     let no_body = method == "HEAD" || (100..200).contains(&status) || status == 204 || status == 304;
     // "whatever its headers say": a bodiless response may also repeat the content coding of the
     // entity it talks about (a 304 for a gzip-coded resource); the empty body stays readable
+    // a Connection field that names the framing fields changes nothing: they still frame the body
+    if index % 5 == 3 {
+        lines.push(if index % 2 == 0 { "Connection: close, Content-Length, Transfer-Encoding" } else { "connection: Transfer-Encoding,content-length" });
+        ctx.count("framing_fields_nominated_by_connection", 1);
+    }
     let mut coded_body: Option<&'static [u8]> = None;
     if !no_body && clv == ClVerdict::Invalid && tev == TeVerdict::NoChunked && index % 2 == 1 {
         // an unusable Content-Length stays unusable when the body is declared gzip/deflate-coded
